@@ -1,0 +1,68 @@
+//go:build verif
+
+// Verification hooks (build tag "verif"). Add-only: with the tag off this file does not exist
+// for the compiler and nothing else in the package refers to it.
+
+package collector
+
+import (
+	"bytes"
+	"net"
+	"sort"
+	"time"
+
+	"github.com/vmware/go-ipfix/pkg/entities"
+)
+
+// VerifClock and VerifTimer export the unexported clock / timer interfaces so that an external
+// harness can inject its own clock (timer firing and callback execution under harness control).
+type VerifClock = clock
+type VerifTimer = timer
+
+// VerifNewCollectingProcess is initCollectingProcess with an injected clock.
+func VerifNewCollectingProcess(input CollectorInput, c VerifClock) (*CollectingProcess, error) {
+	return initCollectingProcess(input, c)
+}
+
+// VerifDecodePacket drives decodePacket in-process. The caller must drain GetMsgChan().
+func (cp *CollectingProcess) VerifDecodePacket(b []byte, exportAddress string) (*entities.Message, error) {
+	return cp.decodePacket(bytes.NewBuffer(b), exportAddress)
+}
+
+// VerifHandleTCPConn runs the TCP client handler on an arbitrary net.Conn.
+func (cp *CollectingProcess) VerifHandleTCPConn(conn net.Conn) {
+	cp.handleTCPClient(conn)
+}
+
+// VerifTemplate is a read-only snapshot of one stored template.
+type VerifTemplate struct {
+	ObsDomainID uint32
+	TemplateID  uint16
+	IEs         []entities.InfoElement
+	ExpiryTime  time.Time
+	HasTimer    bool
+	Timer       VerifTimer
+}
+
+// VerifTemplates returns a snapshot of the template store, sorted by (domain, id).
+func (cp *CollectingProcess) VerifTemplates() []VerifTemplate {
+	cp.mutex.RLock()
+	defer cp.mutex.RUnlock()
+	out := make([]VerifTemplate, 0)
+	for dom, m := range cp.templatesMap {
+		for id, tpl := range m {
+			vt := VerifTemplate{ObsDomainID: dom, TemplateID: id, ExpiryTime: tpl.expiryTime, HasTimer: tpl.expiryTimer != nil, Timer: tpl.expiryTimer}
+			for _, ie := range tpl.ies {
+				vt.IEs = append(vt.IEs, *ie)
+			}
+			out = append(out, vt)
+		}
+	}
+	sort.Slice(out, func(i, j int) bool {
+		if out[i].ObsDomainID != out[j].ObsDomainID {
+			return out[i].ObsDomainID < out[j].ObsDomainID
+		}
+		return out[i].TemplateID < out[j].TemplateID
+	})
+	return out
+}
